@@ -400,3 +400,17 @@ Definition render_msg (id : N) (gbk_enc : list N -> list N) (v : val) : result (
   else if id =? 258 then t0102_render v
   else if id =? 256 then t0100_render gbk_enc v
   else Ok [].
+
+(* ------------------------------------------------------------------------------------------ *)
+(* sequences of calls on one receiver (the per-connection handler objects of the README pattern).
+   A receiver is reachable when it is fresh, or the value a successful Parse of a reachable
+   receiver produced, or whatever a FAILING Parse left behind: a failing Parse may have assigned
+   any of the members Parse assigns, but never the never-written ones (config_of). *)
+Definition ver_ok (ver : N) : Prop := ver = 1 \/ ver = 2 \/ ver = 3.
+
+Inductive reach (id : N) (gbk : list N -> list N) (d : N) : val -> Prop :=
+| reach_fresh : reach id gbk d (VL [])
+| reach_ok : forall r ver body v, reach id gbk d r -> ver_ok ver ->
+    parse_msg id gbk ver d r body = Ok v -> reach id gbk d v
+| reach_fail : forall r r', reach id gbk d r -> config_of id d r' = config_of id d r -> reach id gbk d r'.
+
